@@ -193,7 +193,7 @@ Definition dobs_wf (d : sx) : bool :=
   && forallb lowerhex hash && (0 <=? size) && (size <? 2 ^ 63) && inst_wf inst.
 
 (** the getters of one digest agree with each other and with the fields *)
-Definition prefixes {T} (l : list T) : list (list T) := map (fun n => firstn n l) (seq 0 (S (length l))).
+Definition seq_prefixes {T} (l : list T) : list (list T) := map (fun n => firstn n l) (seq 0 (S (length l))).
 Definition dobs_consistent (d : sx) : bool :=
   let key1 := sxb (sx_nth d 0) in
   let fn := sx_N (ok_val (sx_nth d 1)) in
@@ -208,7 +208,7 @@ Definition dobs_consistent (d : sx) : bool :=
   && beqb (hex_encode (sxb (ok_val (sx_nth d 7)))) hash
   (* ancestors: exactly the chain of component prefixes *)
   && sx_eqb (ok_val (sx_nth d 9))
-            (enc_list (map (fun p => want0 ++ dash :: join_slash p) (prefixes (spec_components inst)))).
+            (enc_list (map (fun p => want0 ++ dash :: join_slash p) (seq_prefixes (spec_components inst)))).
 
 Definition flag (n : Z) (bad : bool) : list Z := if bad then [n] else [].
 
